@@ -12,6 +12,7 @@ pub use scrypto_test::prelude::*;
 pub mod menu;
 
 use radix_engine::blueprints::resource::*;
+use radix_engine::define_composite_checker;
 use radix_engine::system::checkers::*;
 use radix_engine::system::system_db_reader::SystemDatabaseReader;
 use radix_substate_store_interface::db_key_mapper::{DatabaseKeyMapper, SpreadPrefixKeyMapper};
@@ -58,14 +59,22 @@ pub fn new_sim_genesis(genesis: BabylonSettings) -> Sim<NoExtension> {
     LedgerSimulatorBuilder::new().with_custom_genesis(genesis).without_kernel_trace().build()
 }
 
-#[derive(ScryptoSbor, ManifestSbor, NonFungibleData, Clone, Debug)]
+#[derive(ScryptoSbor, ManifestSbor, Clone, Debug)]
 pub struct NfData {
     pub name: String,
-    #[mutable]
     pub level: u32,
+}
+impl NonFungibleData for NfData {
+    const MUTABLE_FIELDS: &'static [&'static str] = &["level"];
 }
 
 pub fn build_world<E: NativeVmExtension>(sim: &mut Sim<E>) -> World {
+    build_world_opt(sim, true)
+}
+
+/// `freezable = false`: `rc` is only recallable (no freeze feature), so that the engine's own
+/// ResourceDatabaseChecker (which cannot handle freezable vaults) can be used on this world.
+pub fn build_world_opt<E: NativeVmExtension>(sim: &mut Sim<E>, freezable: bool) -> World {
     let (pk_a, _sk_a, a) = sim.new_account(true);
     let (pk_b, _sk_b, b) = sim.new_account(true);
     let acct = |pk: Secp256k1PublicKey, addr| Acct { pk, addr, sig: NonFungibleGlobalId::from_public_key(&pk) };
@@ -82,7 +91,7 @@ pub fn build_world<E: NativeVmExtension>(sim: &mut Sim<E>) -> World {
         ]),
         a,
     );
-    let rc = sim.create_freezeable_token(a);
+    let rc = if freezable { sim.create_freezeable_token(a) } else { sim.create_recallable_token(a) };
     let w = World { a: acct(pk_a, a), b: acct(pk_b, b), f18, f2, f0, nf, rc };
     // give B a vault of rc with 5
     let m = ManifestBuilder::new()
@@ -328,23 +337,43 @@ define_composite_checker! {
     ]
 }
 
-/// Kernel + system (schema conformance of every substate) + resource + role-assignment + royalty checkers,
-/// event checker and reconciliation (when `reconcile`), without printing. Err(description) on the first failure.
-pub fn check_database_quiet<E: NativeVmExtension>(sim: &Sim<E>, reconcile: bool) -> Result<(), String> {
+define_composite_checker! {
+    QuietStructureChecker,
+    [
+        RoleAssignmentDatabaseChecker,
+        ComponentRoyaltyDatabaseChecker,
+    ]
+}
+
+/// The engine's own checkers, without printing. Err(description) on the first failure.
+/// * always: kernel checker (ownership / references) + system checker (schema conformance of every substate,
+///   entity type vs blueprint) + role-assignment + component-royalty checkers;
+/// * `resources`: additionally the engine's ResourceDatabaseChecker + event checker (NOTE: that checker has
+///   `todo!()` arms for freezable vaults' extra fields, so it can only be used on worlds without freezable
+///   resources) and, when `reconcile`, the ResourceReconciler of database totals against the event history.
+pub fn check_database_quiet<E: NativeVmExtension>(sim: &Sim<E>, resources: bool, reconcile: bool) -> Result<(), String> {
     let db = sim.substate_db();
     let r = mc_core::catch(|| -> Result<(), String> {
         let mut kernel_checker = KernelDatabaseChecker::new();
         kernel_checker.check_db(db).map_err(|e| format!("kernel checker: {e:?}"))?;
-        let mut checker = SystemDatabaseChecker::new(QuietCompositeChecker::new(Default::default(), Default::default(), Default::default()));
-        let db_results = checker.check_db(db).map_err(|e| format!("system checker: {e:?}"))?;
-        if !db_results.1 .1.is_empty() {
-            return Err(format!("role assignment violations: {:?}", db_results.1 .1));
-        }
-        let event_results = SystemEventChecker::<ResourceEventChecker>::new()
-            .check_all_events(db, sim.collected_events())
-            .map_err(|e| format!("event checker: {e:?}"))?;
-        if reconcile {
-            ResourceReconciler::reconcile(&db_results.1 .0, &event_results).map_err(|e| format!("reconciler: {e:?}"))?;
+        if resources {
+            let mut checker = SystemDatabaseChecker::new(QuietCompositeChecker::new(Default::default(), Default::default(), Default::default()));
+            let db_results = checker.check_db(db).map_err(|e| format!("system checker: {e:?}"))?;
+            if !db_results.1 .1.is_empty() {
+                return Err(format!("role assignment violations: {:?}", db_results.1 .1));
+            }
+            let event_results = SystemEventChecker::<ResourceEventChecker>::new()
+                .check_all_events(db, sim.collected_events())
+                .map_err(|e| format!("event checker: {e:?}"))?;
+            if reconcile {
+                ResourceReconciler::reconcile(&db_results.1 .0, &event_results).map_err(|e| format!("reconciler: {e:?}"))?;
+            }
+        } else {
+            let mut checker = SystemDatabaseChecker::new(QuietStructureChecker::new(Default::default(), Default::default()));
+            let db_results = checker.check_db(db).map_err(|e| format!("system checker: {e:?}"))?;
+            if !db_results.1 .0.is_empty() {
+                return Err(format!("role assignment violations: {:?}", db_results.1 .0));
+            }
         }
         Ok(())
     });
